@@ -2,7 +2,6 @@ package sio
 
 import (
 	"errors"
-	"reflect"
 
 	"github.com/karagenc/socket.io-go/parser"
 )
